@@ -81,7 +81,12 @@ def run(ctx):
     corpus = [open(f).read() for f in sorted(glob.glob(os.path.join(cdir, "*.sam")))]
     repo = [open(f).read() for f in sorted(glob.glob(os.path.join(common.REPO, "tests", "*.sam")))]
     # ---- tie 1: ssa
-    ssa_res, _ = pair("ssa", corpus + repo + texts)
+    ssa_res, ssa_other = pair("ssa", corpus + repo + texts)
+    for t, a in ssa_other:
+        if a.startswith("locinv"):
+            ctx.violation("the parser builds an `E::LocalId` whose expression location differs from its identifier's location (definition / references / rename navigate by it): " + a[7:160],
+                          {"protocol": "ssa", "module": t, "impl": a})
+            break
     for t, a, m in ssa_res:
         if a != m:
             ctx.violation("model/implementation disagreement on protocol ssa (Model/Scope.lean vs ssa_analysis.rs)",
@@ -111,7 +116,8 @@ def run(ctx):
         if a.startswith("ok "):
             nren += int(a.split(" ")[1])
             if a.split(" ")[2] != "-":
-                renamed_samples.append((t, unhex(a.split(" ")[2]).decode()))
+                for hx in a.split(" ")[2].split(","):
+                    renamed_samples.append((t, unhex(hx).decode()))
         elif a.startswith("FAIL") or a.startswith("panic") or a.startswith("<"):
             f = next((f for f in ctx.open_findings
                       if all(part.split(" (")[0].strip() in a for part in f.get("signature", "x").split(";"))), None)
@@ -128,14 +134,19 @@ def run(ctx):
     beh = {"compared": 0}
     try:
         common.build_exec()
-        chosen = renamed_samples[: ctx.scale(40, 400)]
-        jobs = []
+        chosen = renamed_samples[: ctx.scale(120, 1200)]
+        jobs, base_ix = [], {}
+        for t, t1 in chosen:        # every original runs once, every renamed text once
+            if t not in base_ix:
+                base_ix[t] = len(jobs)
+                jobs.append({"sources": {"Main": t}, "entry": "Main", "std": True, "ts": False, "timeout_ms": 10000})
+        ren_ix = []
         for t, t1 in chosen:
-            jobs.append({"sources": {"Main": t}, "entry": "Main", "std": True, "ts": False, "timeout_ms": 10000})
+            ren_ix.append(len(jobs))
             jobs.append({"sources": {"Main": t1}, "entry": "Main", "std": True, "ts": False, "timeout_ms": 10000})
         outs = common.exec_programs(jobs)
         for k, (t, t1) in enumerate(chosen):
-            a, b = outs[2 * k], outs[2 * k + 1]
+            a, b = outs[base_ix[t]], outs[ren_ix[k]]
             ka = (a["compile"], (a.get("wasm") or {}).get("lines"), (a.get("wasm") or {}).get("end"))
             kb = (b["compile"], (b.get("wasm") or {}).get("lines"), (b.get("wasm") or {}).get("end"))
             if ka[2] == "no-node":
